@@ -6,7 +6,7 @@ let dump_aut (a : automaton) =
     let trs = List.map2 (fun iv t -> Printf.sprintf "%s>%d" (cs_show iv) (int_of_nat t)) s.a_classes.ivs s.a_succ in
     Printf.sprintf "s%d:%s:[%s]:d=%s" (int_of_nat s.a_id) (if s.a_final then "F" else "N") (String.concat "," trs)
       (match s.a_default with Some d -> string_of_int (int_of_nat d) | None -> "-") in
-  Printf.sprintf "n=%d f=%d i=%d ; %s" (int_of_nat a.num_states) (int_of_nat a.num_final) (int_of_nat a.initial)
+  Printf.sprintf "n=%d f=%d i=%d | %s" (int_of_nat a.num_states) (int_of_nat a.num_final) (int_of_nat a.initial)
     (String.concat " " (List.map st a.astates))
 let table_str (a : automaton) =
   let al = pick_alphabet a in
